@@ -1,17 +1,17 @@
 /-
-  The length bound of `Props.C05.parseNumber_value` is necessary: a machine-checked counterexample of
-  `10^9 + 15` bytes.
+  A length bound in `Props.C05.parseNumber_value` is necessary (no real input: `2^58 + 23` bytes).
 
-  The input `"0." ++ 10^9 zeros ++ "1e10000000000"` is an accepted numeral with literal value
-  `1 · 10^(10^10 − 10^9 − 1)`, far beyond the largest finite Decimal, so the specification demands `±Inf` and
-  the range error.  `parseNumber` saturates the written exponent at `10^9` (ten digits), subtracts the
-  `10^9 + 1` fraction digits and hands `1 · 10^-1` to `reduce128`: it returns a finite value and `nil`.
-  (The real `Parse` returns `0.1, nil` on this input.)
+  The input `"0." ++ 2^58 zeros ++ "1e2882303761517117440"` is an accepted numeral with literal value
+  `1 · 10^(10·2^58 − 2^58 − 1)`, far beyond the largest finite Decimal, so the specification demands `±Inf` and
+  the range error.  `parseNumber` saturates the written exponent at `2^58`, subtracts the `2^58 + 1` fraction
+  digits and hands `1 · 10^-1` to `reduce128`: it returns a finite value and `nil`.
+  (Before the repair of the saturation bound — `10^9` instead of `2^58` — the same happened for the 1 GB input
+  `"0." ++ 10^9 zeros ++ "1e10000000000"`, on which the real `Parse` returned `0.1, nil`.)
 
-  * `ParseLong.cex N`                 the bytes `"0." ++ N zeros ++ "1e10000000000"`
-  * `ParseLong.readNumber_cex`        `Spec.readNumber sep (cex N) = some (1, 10^10 − (N+1))`
-  * `ParseLong.run2_cex`              the state `parseNumber` reaches: `sig = 1`, `nfrac = N+1`, `exp = 10^9`, `trunc = 0`
-  * `ParseLong.parseNumber_value_bound_necessary`   the counterexample for `N = 10^9`
+  * `ParseLong.cex N`                 the bytes `"0." ++ N zeros ++ "1e2882303761517117440"`
+  * `ParseLong.readNumber_cex`        `Spec.readNumber sep (cex N) = some (1, 10·2^58 − (N+1))`
+  * `ParseLong.run2_cex`              the state `parseNumber` reaches: `sig = 1`, `nfrac = N+1`, `exp = 2^58`, `trunc = 0`
+  * `ParseLong.parseNumber_value_bound_necessary`   the counterexample for `N = 2^58`
 -/
 import D128.Proofs.ParseLongTop
 import D128.Proofs.ParseValueSpec
@@ -24,14 +24,15 @@ open Parse
 
 /-- `N` zeros followed by `1` -/
 def cexFrac (N : Nat) : List UInt8 := List.replicate N 48 ++ [49]
-/-- the exponent digits `10000000000` (`10^10`) -/
-def cexExp : List UInt8 := [49, 48, 48, 48, 48, 48, 48, 48, 48, 48, 48]
+/-- the exponent digits `2882303761517117440` (`10·2^58`) -/
+def cexExp : List UInt8 :=
+  [50, 56, 56, 50, 51, 48, 51, 55, 54, 49, 53, 49, 55, 49, 49, 55, 52, 52, 48]
 /-- `"0." ++ N zeros ++ "1"` -/
 def cexPre (N : Nat) : List UInt8 := [48] ++ (46 :: cexFrac N)
-/-- `"0." ++ N zeros ++ "1e10000000000"` -/
+/-- `"0." ++ N zeros ++ "1e2882303761517117440"` -/
 def cex (N : Nat) : List UInt8 := cexPre N ++ (101 :: ([] ++ cexExp))
 
-theorem cex_length (N : Nat) : (cex N).length = N + 15 := by
+theorem cex_length (N : Nat) : (cex N).length = N + 23 := by
   simp [cex, cexPre, cexFrac, cexExp]
 
 /-! ## the specification -/
@@ -51,7 +52,7 @@ theorem isDig_frac (N : Nat) : ∀ c ∈ cexFrac N, isDig c = true := by
   · rw [List.mem_singleton.mp h]; decide
 
 theorem readNumber_cex (sep : Bool) (N : Nat) :
-    Spec.readNumber sep ((cex N).map toChar) = some (1, (10 ^ 10 : Int) - ((N + 1 : Nat) : Int)) := by
+    Spec.readNumber sep ((cex N).map toChar) = some (1, (2882303761517117440 : Int) - ((N + 1 : Nat) : Int)) := by
   have h := readNumber_canonical sep [48] (cexFrac N) [] cexExp true true 101
     (by decide) (isDig_frac N) (by decide) (fun h => by cases h) (by simp) (Or.inl rfl) (Or.inl rfl)
     (fun _ => by decide) (fun h => by cases h)
@@ -60,7 +61,7 @@ theorem readNumber_cex (sep : Bool) (N : Nat) :
     show (48 - 48) * _ + (0 * _ + (49 - 48)) = 1
     simp
   have hl : (cexFrac N).length = N + 1 := by simp [cexFrac]
-  have he : val cexExp = 10 ^ 10 := by decide
+  have he : val cexExp = 2882303761517117440 := by decide
   rw [hv, hl, he] at h
   simp only [if_true] at h
   rw [show cex N = [48] ++ (46 :: cexFrac N) ++ (101 :: ([] ++ cexExp)) from rfl, h]
@@ -121,25 +122,29 @@ theorem run2_exp_digits (sep : Bool) (ds : List UInt8) (s s' : S2) (hds : ∀ c 
 theorem expFold_toInt (ds : List UInt8) (hds : ∀ c ∈ ds, isDig c = true) (e : Int64) (h0 : 0 ≤ e.toInt) :
     0 ≤ (ds.foldl (fun e c => expDigit c e) e).toInt ∧
     (ds.foldl (fun e c => expDigit c e) e).toInt =
-      ds.foldl (fun (x : Int) c => if x < 10 ^ 9 then x * 10 + (dval c : Int) else x) e.toInt := by
+      ds.foldl (fun (x : Int) c => if x < 288230376151711744 then x * 10 + (dval c : Int) else x) e.toInt := by
   induction ds generalizing e with
   | nil => exact ⟨h0, rfl⟩
   | cons c r ih =>
     have hc := hds c List.mem_cons_self
     have hE := expDigit_toInt c hc e h0
+    rw [show (2 : Int) ^ 58 = 288230376151711744 by norm_num] at hE
     have h0' : 0 ≤ (expDigit c e).toInt := by rw [hE]; split <;> omega
     obtain ⟨h1, h2⟩ := ih (fun x hx => hds x (List.mem_cons_of_mem _ hx)) (expDigit c e) h0'
     exact ⟨h1, by rw [List.foldl_cons, h2, hE]; rfl⟩
 
-theorem expFold_cex : cexExp.foldl (fun e c => expDigit c e) (0 : Int64) = (1000000000 : Int64) := by
+theorem expFold_cex :
+    cexExp.foldl (fun e c => expDigit c e) (0 : Int64) = (288230376151711744 : Int64) := by
   apply Int64.toInt_inj.mp
   rw [(expFold_toInt cexExp (by decide) 0 (by decide)).2]
   decide
 
+theorem u128_one : (⟨1, 0⟩ : U128).toNat = 1 := by simp [U128.toNat]
+
 /-- the state `parseNumber` reaches on `cex N` -/
-theorem run2_cex (sep : Bool) (N : Nat) (hN : N + 15 < 2 ^ 62) :
+theorem run2_cex (sep : Bool) (N : Nat) (hN : N + 23 < 2 ^ 62) :
     ∃ s, run2 sep (cex N) (toS2 init1) = some s ∧ s.caneof = true ∧ s.sawdig = true ∧
-      s.sig = ⟨1, 0⟩ ∧ s.trunc = 0 ∧ s.eneg = false ∧ s.exp = (1000000000 : Int64) ∧
+      s.sig = ⟨1, 0⟩ ∧ s.trunc = 0 ∧ s.eneg = false ∧ s.exp = (288230376151711744 : Int64) ∧
       s.nfrac.toInt = ((N + 1 : Nat) : Int) := by
   obtain ⟨s, hrun, hce, hsd⟩ := accepted_run2 sep (cex N) _ (readNumber_cex sep N)
   refine ⟨s, hrun, hce, hsd, ?_⟩
@@ -176,9 +181,8 @@ theorem run2_cex (sep : Bool) (N : Nat) (hN : N + 15 < 2 ^ 62) :
       have hr0 : r = 0 := by simpa using hrlt
       subst hr0
       have hsig : s1.sig = ⟨1, 0⟩ := by
-        apply U128.toNat_inj
-        simp only [Nat.pow_zero, Nat.mul_one, Nat.add_zero] at hval
-        rw [← hval]; rfl
+        have h1 : s1.sig.toNat = 1 := by omega
+        exact U128.toNat_inj (h1.trans u128_one.symm)
       have htr : s1.trunc = 0 := by rw [hR.tr]; rfl
       have hen : s1.eneg = false := hR.eneg
       have hexp : s1.exp = 0 := by
@@ -197,5 +201,101 @@ theorem run2_cex (sep : Bool) (N : Nat) (hN : N + 15 < 2 ^ 62) :
       · rw [e1, hs2]
         show s1.nfrac.toInt = _
         rw [hnf]; push_cast; omega
+
+/-! ## the tail on that state, and the counterexample -/
+
+open Spec SpecRound in
+theorem tenth_not_inf (m : Spec.Mode) (neg : Bool) :
+    Spec.flushOrRoundS m neg (((1 : Nat) : Rat) + 0) (-1) ≠ .inf neg := by
+  intro h
+  have hq : (0 : Rat) < ((1 : Nat) : Rat) + 0 := by norm_num
+  rw [flushOrRoundS_eq m neg _ hq.le (-1), flushOrRound_eq_roundTo] at h
+  · have hpos : (0 : Rat) < (((1 : Nat) : Rat) + 0) * (10 : Rat) ^ (-1 : Int) := by positivity
+    have := roundTo_inf_gt_max hpos h
+    have h1 : (1 : Rat) ≤ (Spec.Cmax : Rat) := by
+      rw [RK.Cmax_val]; norm_num
+    have h2 : (1 : Rat) ≤ (10 : Rat) ^ Spec.Emax := one_le_zpow₀ (by norm_num) (by unfold Spec.Emax; omega)
+    have h3 : (((1 : Nat) : Rat) + 0) * (10 : Rat) ^ (-1 : Int) < 1 := by norm_num
+    nlinarith
+  · have : (10 : Rat) ^ (Spec.Emin - 1) ≤ (10 : Rat) ^ (-1 : Int) :=
+      zpow_le_zpow_right₀ (by norm_num) (by unfold Spec.Emin; omega)
+    simpa using this
+
+local notation "𝔳[" d "]" => Spec.interp (Gen.Decimal.lo d) (Gen.Decimal.hi d)
+
+/-- on the state reached for `N = 2^58` the tail returns a finite value and `nil` -/
+theorem finish_cex (g : Globals) (neg : Bool) (m : Spec.Mode)
+    (hm : Spec.Mode.ofNat? g.DefaultRoundingMode.toNat = some m) (N : Nat) (hN : N = 2 ^ 58) (s : S2)
+    (hce : s.caneof = true) (hsd : s.sawdig = true) (hsig : s.sig = ⟨1, 0⟩) (htr : s.trunc = 0)
+    (hen : s.eneg = false) (hexp : s.exp = (288230376151711744 : Int64))
+    (hnf : s.nfrac.toInt = ((N + 1 : Nat) : Int)) :
+    ∃ v, finish g neg s = .ok (v, Go.Err.nil) ∧ (𝔳[v]).isInf = false := by
+  have hsyn : ¬ ((!s.caneof) || (!s.sawdig)) = true := by rw [hce, hsd]; decide
+  have hz : ¬ ((s.sig.w0 ||| s.sig.w1) == (0 : UInt64)) = true := by rw [hsig]; decide
+  have hx : s.exp.toInt = 288230376151711744 := by rw [hexp]; decide
+  have hE := finE_toInt s (by omega) (by omega) (by omega)
+  rw [hen] at hE
+  simp only [Bool.false_eq_true, if_false] at hE
+  generalize hE64 : s.exp - s.nfrac = E64 at hE
+  have hE64' : E64 = (if s.eneg then s.exp * (-1 : Int64) else s.exp) - s.nfrac := by
+    rw [← hE64, hen]; rfl
+  have hEv : E64.toInt = -1 := by rw [hE, hx, hnf, hN]; norm_num
+  have h6150 : (6150 : Int64).toInt = 6150 := by decide
+  have h6215 : (-6215 : Int64).toInt = -6215 := by decide
+  have hb : ¬ decide (E64 > (6150 : Int64)) = true := by
+    rw [decide_eq_true_eq, gt_iff_lt, Int64.lt_iff_toInt_lt, h6150]; omega
+  have hs : ¬ decide (E64 < (-6215 : Int64)) = true := by
+    rw [decide_eq_true_eq, Int64.lt_iff_toInt_lt, h6215]; omega
+  have hc16 := conv16_toInt E64 (by omega) (by omega)
+  have hs1 : s.sig.toNat = 1 := by rw [hsig]; exact u128_one
+  obtain ⟨sig', exp', hred, hpost⟩ := reduce128_correct g.DefaultRoundingMode m neg s.sig
+    (Go.conv (E64 + (6176 : Int64)) : Int16) s.trunc 0 hm
+    (by rw [hc16]; omega) (by rw [hc16]; omega)
+    (Or.inl ⟨by rw [htr]; decide, rfl⟩) (by rw [hs1]; norm_num)
+    (fun h => absurd h (by rw [htr]; decide)) (fun h => absurd h (by rw [htr]; decide))
+    (fun h => absurd h (by rw [htr]; decide))
+  rw [finish_red g neg s hsyn hz E64 hE64' hb hs (sig', exp') hred]
+  rw [hc16, hEv, hs1] at hpost
+  have e12 : (exp' > (12287 : Int16)) ↔ exp'.toInt > 12287 := by
+    rw [gt_iff_lt, Int16.lt_iff_toInt_lt]; simp
+  have hov : ¬ exp'.toInt > 12287 := by
+    intro hov
+    rw [if_pos hov] at hpost
+    exact tenth_not_inf m neg (by simpa using hpost)
+  rw [if_neg hov] at hpost
+  rw [if_neg (by simpa [e12] using hov)]
+  refine ⟨_, rfl, ?_⟩
+  show (𝔳[Gen.compose neg sig' exp']).isInf = false
+  rw [Sp.interp_compose neg sig' exp' hpost.1 hpost.2.1 (by omega)]
+  rfl
+
+/-- **a length bound of `parseNumber_value` is necessary.**  For the input
+    `"0." ++ 2^58 zeros ++ "1e2882303761517117440"` (`2^58 + 23` bytes) the specification reads the literal
+    `1 · 10^(10·2^58 − 2^58 − 1)`, whose value is `±Inf` with a range error in every rounding mode, but
+    `parseNumber` returns a finite Decimal and `nil`: the written exponent saturates at `2^58` and cancels against
+    the `2^58 + 1` fraction digits. -/
+theorem parseNumber_value_bound_necessary (g : Globals) (neg sep : Bool) (m : Spec.Mode)
+    (hm : Spec.Mode.ofNat? g.DefaultRoundingMode.toNat = some m) :
+    ∃ d : Go.Bytes, d.size = 2 ^ 58 + 23 ∧
+      ∃ (n : Nat) (sc : Int), Spec.readNumber sep (d.toList.map toChar) = some (n, sc) ∧
+        Spec.literalValue m neg n sc = (.inf neg, true) ∧
+        ∃ v, Gen.parseNumber g d neg sep = .ok (v, Go.Err.nil) ∧ (𝔳[v]).isInf = false := by
+  obtain ⟨N, hN⟩ : ∃ N : Nat, N = 2 ^ 58 := ⟨_, rfl⟩
+  have hlen := cex_length N
+  refine ⟨(cex N).toArray, by simp only [List.size_toArray]; omega, 1,
+    (2882303761517117440 : Int) - ((N + 1 : Nat) : Int), by simpa using readNumber_cex sep N, ?_, ?_⟩
+  · have hbig := lit_big m neg 1 1 0 0 ((2882303761517117440 : Int) - ((N + 1 : Nat) : Int)) (by norm_num)
+      (by norm_num) (by rw [hN]; norm_num)
+    unfold Spec.literalValue
+    have : ((1 : Nat) == 0) = false := rfl
+    simp only [this, Bool.false_eq_true, if_false, hbig]
+    rfl
+  · obtain ⟨s, hrun, hce, hsd, hsig, htr, hen, hexp, hnf⟩ := run2_cex sep N (by omega)
+    obtain ⟨v, hfin, hv⟩ := finish_cex g neg m hm N hN s hce hsd hsig htr hen hexp hnf
+    refine ⟨v, ?_, hv⟩
+    rw [parseNumber_eq_model g _ neg sep (by simp only [List.size_toArray]; omega)]
+    unfold model
+    rw [List.toList_toArray, loops_eq_run2, hrun]
+    exact hfin
 
 end ParseLong
